@@ -153,6 +153,18 @@ func runC10(rec *vk.Rec, ci, rep int) {
 		}
 		rec.Inc("runs_with_read_rate_limit")
 	}
+	// every fourth run: a large audience (the fan-out of one publish to 64..256 subscribers, sizes around multiples of 64 and
+	// of other round numbers), most of them on the direct path
+	large := ci%4 == 1
+	if large && rep > 0 {
+		return // one repeat of the large runs is enough (they cost the most)
+	}
+	if large {
+		nsub = []int{128, 192, 256, 128, 64, 129, 100, 192}[r.Intn(8)]
+		npub = r.Range(2, 3)
+		perPub = vk.N(150, 600)
+		rec.Inc("runs_with_large_audience")
+	}
 	var subs []*c10Sub
 	queueing := false
 	var hookCtr uint32
@@ -171,8 +183,14 @@ func runC10(rec *vk.Rec, ci, rep int) {
 			}
 		})
 		kind := r.Intn(5)
+		if large && i >= 4 {
+			kind = 3 // listener.Conn at rate 1000: the direct path
+		}
 		var handshake []byte
 		nch := r.Range(1, len(chans))
+		if large {
+			nch = len(chans)
+		}
 		s.channels = append([]string(nil), chans[:nch]...)
 		handshake = append(handshake, mqttref.Connect(s.name, "", nil)...)
 		var topics []string
